@@ -210,8 +210,12 @@ def build(repo=None):
         "module": Z("str", z3.String("fn_module")),
         "typechecker": Opaque("typechecker"),
         "output_name": Z("str", z3.String("output_name")),
-        "wrapped_fn_holder": Tup([Fn("weakref", model=lambda e, s, a, k, n: [(s, wrapper_self)])]),
     })
+    # the cell through which the wrapper reaches itself, by ROLE: the free variable that is subscripted with 0 and called -- `<cell>[0]()`
+    holder_names = sorted({c.func.value.id for c in ast.walk(wf) if isinstance(c, ast.Call) and isinstance(c.func, ast.Subscript) and isinstance(c.func.value, ast.Name)
+                           and isinstance(c.func.slice, ast.Constant) and c.func.slice.value == 0})
+    for hn in holder_names:
+        eng.globals[hn] = Tup([Fn("weakref", model=lambda e, s, a, k, n: [(s, wrapper_self)])])
     # getattr(fn, "__no_type_check__", False) on a Fn value: route through an opaque twin
     from ..builtins_model import b_getattr
 
